@@ -164,7 +164,7 @@ func exec(f func()) bool {
 	}
 }
 
-var opNames = []string{"rpanW", "rmpipeW+rmnodeEW", "sendG", "sendG", "sendG", "flushG", "tick", "tick", "sendA", "sendA", "reopen", "reopen", "rpanG", "rpanA", "rmpipeG+rmnode", "rmpipeA+rmnode", "regnode", "regpipeA", "thr", "isany", "rmpipeB"}
+var opNames = []string{"rpanW", "rmpipeW+rmnodeEW", "sendG", "sendG", "sendG", "flushG", "tick", "tick", "sendA", "sendA", "reopen", "reopen", "rpanG", "rpanA", "rmpipeG+rmnode", "rmpipeA+rmnode", "regnode", "regpipeA", "thr", "isany", "rmpipeB", "sendExpired", "stoptime", "rmnodePadded", "rmnodePadded", "rmpipePadded", "rmpipeG"}
 
 func TestC12Terminates(t *testing.T) {
 	sec := stats.Sec("terminates", rule)
@@ -279,6 +279,44 @@ func TestC12Terminates(t *testing.T) {
 				f = func() { _ = b.RemovePipeline("W2", "pw"); _ = b.RemoveNode(ctx, "ew") }
 			case "rmpipeB":
 				f = func() { _ = b.RemovePipeline("B", "pb0") }
+			case "rmpipeG":
+				// only the pipeline goes: the gated filter stays registered, unreferenced, possibly with gated groups
+				f = func() { _ = b.RemovePipeline("G", "pg") }
+				gfRegistered = false
+			case "sendExpired":
+				// contexts that are done in different ways before the call: deadline in the past, deadline now, tiny timeout, cancelled
+				kind := i % 4
+				f = func() {
+					var sctx context.Context
+					var cancel context.CancelFunc
+					switch kind {
+					case 0:
+						sctx, cancel = context.WithDeadline(ctx, time.Now().Add(-time.Hour))
+					case 1:
+						sctx, cancel = context.WithDeadline(ctx, time.Now())
+					case 2:
+						sctx, cancel = context.WithTimeout(ctx, time.Nanosecond)
+					default:
+						sctx, cancel = context.WithCancel(ctx)
+						cancel()
+					}
+					defer cancel()
+					_, _ = b.Send(sctx, "A", &nodes.Lin{Path: "expired"})
+					_, _ = b.Send(sctx, "G", &gated.Payload{ID: "gx", Header: map[string]interface{}{"k": 1}})
+				}
+			case "stoptime":
+				at := []time.Time{{}, time.Date(2100, 1, 1, 0, 0, 0, 0, time.UTC), time.Unix(0, 0), time.Date(1999, 1, 1, 0, 0, 0, 0, time.UTC)}[i%4]
+				f = func() { b.StopTimeAt(at) }
+			case "rmnodePadded":
+				// ids that are not registered as written (the registered ones are "gf", "x", "ew"): nothing is removed
+				id := []eventlogger.NodeID{"gf ", " gf", "gf\n", "x ", "ew\t"}[i%5]
+				f = func() { _ = b.RemoveNode(ctx, id) }
+			case "rmpipePadded":
+				f = func() {
+					_ = b.RemovePipeline("G", "pg ")
+					_, _ = b.RemovePipelineAndNodes(ctx, "G ", "pg")
+					_, _ = b.RemovePipelineAndNodes(ctx, " ", " ")
+				}
 			}
 			if !exec(f) {
 				stop.Store(true)
@@ -298,6 +336,17 @@ func TestC12Terminates(t *testing.T) {
 		stop.Store(true)
 		if !exec(wg.Wait) {
 			t.Fatalf("VIOLATION C12: background writers are stuck after the history (broker permanently locked)\ncase: %s", c)
+		}
+		if !exec(func() {
+			_ = b.RegisterNode("final-probe", &nodes.N{W: wd.w, Name: "final-probe", ID: "final-probe", T: eventlogger.NodeTypeFilter})
+			_, _ = b.Send(ctx, "A", &nodes.Lin{Path: "final"})
+		}) {
+			gs := leak.BlockedInLib(leak.Dump())
+			txt := ""
+			if len(gs) > 0 {
+				txt = gs[0].Text
+			}
+			t.Fatalf("VIOLATION C12: a writing call and a Send made after the history did not return within %s (broker permanently locked)\ncase: %s\n%s", bound, c, txt)
 		}
 		var cl []string
 		if wd.reentry.Load() > 0 {
